@@ -135,19 +135,19 @@ type model struct {
 	prefix string // hex of the 4 byte state ID prefix
 	rootFH string
 
-	clients  map[string]*mClient
-	confs    []*mConf
-	nextConf int
-	ofs      []*mOF
-	ofByOth  map[string]*mOF
-	lfByOth  map[string]*mLF
-	leaves   []*mLeaf
-	names    map[string]*mLeaf
-	usedOth  map[string]bool
-	usedCID  map[uint64]bool
-	usedFH   map[string]bool
+	clients      map[string]*mClient
+	confs        []*mConf
+	nextConf     int
+	ofs          []*mOF
+	ofByOth      map[string]*mOF
+	lfByOth      map[string]*mLF
+	leaves       []*mLeaf
+	names        map[string]*mLeaf
+	usedOth      map[string]bool
+	usedCID      map[uint64]bool
+	usedFH       map[string]bool
 	otherFlights int // requests in flight besides the one being evaluated
-	dirMoves int // number of successful directory mutations (create/remove)
+	dirMoves     int // number of successful directory mutations (create/remove)
 
 	ev map[string]int // event labels
 }
@@ -348,19 +348,23 @@ func (m *model) dropShare(of *mOF, holder *uint32, keep uint32) {
 	*holder = keep
 }
 
-func (m *model) lfRemove(lf *mLF) {
+// lfRemove removes the lock state of one lock-owner on one open file.
+// With unlock set (CLOSE, RELEASE_LOCKOWNER, expiry, re-registration) the
+// lock-owner's bytes on that file are freed; the lock table is keyed by
+// lock-owner only, so this includes bytes the same lock-owner locked
+// through another open of the same file.
+func (m *model) lfRemove(lf *mLF, unlock bool) {
 	if lf.dead {
 		return
 	}
 	lf.dead = true
 	key := lockKey(lf.lo.conf, lf.lo.key)
-	shared := false
-	for _, x := range lf.lo.files {
-		if x != lf && !x.dead && x.of.leaf == lf.of.leaf {
-			shared = true
+	if unlock {
+		for _, x := range lf.lo.files {
+			if x != lf && !x.dead && x.of.leaf == lf.of.leaf && m.ownerHolds(lf.of.leaf, key) {
+				m.mark("shared_lock_owner_bytes_freed_with_one_open")
+			}
 		}
-	}
-	if !shared {
 		delete(lf.of.leaf.locks, key)
 	}
 	if lf.other != "" {
@@ -387,7 +391,7 @@ func (m *model) ofRemoveStart(of *mOF) {
 	}
 	sort.Strings(keys)
 	for _, k := range keys {
-		m.lfRemove(of.lfs[k])
+		m.lfRemove(of.lfs[k], true)
 	}
 	m.dropShare(of, &of.access, 0)
 }
